@@ -106,6 +106,7 @@ Digits(n) == IF n < 10 THEN <<48 + n>> ELSE Digits(n \div 10) \o <<48 + (n % 10)
 Ident(s) == IF s = ErrName THEN <<101, 114, 114, 111, 114>>
             ELSE IF s < 10 THEN <<116>> \o Digits(s) ELSE <<78>> \o Digits(s)
 CharConst(s) == <<39, 96 + s, 39>>            \* terminal k written as the character constant 'a', 'b', ...
+CharConstHi(s) == <<39, 200 + s, 39>>        \* ... and as a character constant whose character is a byte above 127 (code 200 + k)
 
 RECURSIVE Join(_, _)
 Join(parts, sep) == IF Len(parts) = 0 THEN <<>>
@@ -122,7 +123,8 @@ TransText(rl, style) ==
   ELSE IF Len(rl.t) = 0 THEN (IF style = 2 THEN <<35>> ELSE <<>>)
   ELSE IF rl.t[1] = 0 THEN <<35>> \o sp \o <<45>> ELSE <<35>> \o sp \o Digits(rl.t[1] - 1)
 
-SymText(s, style) == IF style = 1 /\ s > 0 /\ s < 10 THEN CharConst(s) ELSE Ident(s)
+SymText(s, style) == IF style = 1 /\ s > 0 /\ s < 10 THEN CharConst(s)
+                     ELSE IF style = 8 /\ s > 0 /\ s < 10 THEN CharConstHi(s) ELSE Ident(s)
 
 (* In styles 1 and 3 consecutive rules with the same left-hand side are written as alternatives `|'
    of one rule; first = the rule starts a group, last = it ends one. *)
@@ -142,7 +144,7 @@ EndsGroup(rules, k, style) == ~Grouped(style) \/ k = Len(rules) \/ rules[k + 1].
 TermsText(terms, style) ==
   LET sp == Sep(style) IN
   CASE style = 0 -> KW_TERM \o sp \o Join([i \in 1..Len(terms) |-> Ident(terms[i]) \o <<61>> \o Digits(96 + terms[i])], sp) \o <<59, NL>>
-    [] style = 1 -> <<>>
+    [] style \in {1, 8} -> <<>>
     [] style = 2 -> KW_TERM \o sp \o Join([i \in 1..Len(terms) |-> Ident(terms[i])], sp) \o <<NL>>
     [] style = 3 -> KW_TERM \o sp \o Join([i \in 1..Len(terms) |-> Ident(terms[i]) \o sp \o <<61>> \o sp \o Digits(96 + terms[i])], sp) \o <<59>> \o sp
                     \o KW_TERM \o sp \o Join([i \in 1..Len(terms) |-> Ident(terms[i]) \o <<61>> \o Digits(96 + terms[i])], sp) \o <<NL>>   \* declared twice, same codes
@@ -165,6 +167,9 @@ PrintDescr(terms, rules, style) ==
 (* the terminal declarations the text denotes: name and code *)
 DenotedTerms(terms, rules, style) ==
   IF style \in {2, 5} THEN [i \in 1..Len(terms) |-> [n |-> terms[i], c |-> 255 + i]]      \* free codes from 256 in order of (first) appearance
+  ELSE IF style = 8
+  THEN LET used == {s \in UNION {Range(rules[k].r) : k \in DOMAIN rules} : s > 0 /\ s < 10}
+       IN SetToSeq({[n |-> s, c |-> 200 + s] : s \in used})            \* "its code is always code of the character constant"
   ELSE IF style = 1
   THEN \* only the terminals that occur in rules exist (as character constants)
        LET used == {s \in UNION {Range(rules[k].r) : k \in DOMAIN rules} : s > 0 /\ s < 10}
